@@ -29,6 +29,8 @@ pub fn inputs() -> Vec<(&'static str, Vec<Kv>)> {
             vec![(vec![], 3), (b"abc".to_vec(), 5), (b"abd".to_vec(), 7), (b"b\xff".to_vec(), 9), (b"c".to_vec(), u64::MAX)],
         ),
         ("fanout-40-with-index", fan40),
+        // a final root with 256 transitions: count byte "1 means 256", index table, final output
+        ("fanout-256-final-root", std::iter::once((vec![], 9u64)).chain((0..=255u8).map(|b| (vec![b], 1 + (b as u64) * 3))).collect()),
     ]
 }
 
@@ -194,7 +196,7 @@ pub fn plan(tier: Tier) -> Plan {
         let small = kvs.len() <= 1;
         let d = if thorough {
             if small { 4 } else if kvs.len() <= 5 { 3 } else { 2 }
-        } else if small { 3 } else { 2 };
+        } else if small { 3 } else if kvs.len() > 100 { 1 } else { 2 };
         p.extra.insert(format!("deviation_bound[{}]", name), json!(d));
         for shard in 0..shards {
             let kvs = kvs.clone();
